@@ -9,6 +9,10 @@ pub mod c;
 pub mod badge;
 pub mod speed;
 pub mod types;
+// a module whose file is a symbolic link, and one whose file lives outside `src/`
+pub mod linked;
+#[path = "../shared/outside.rs"]
+pub mod outside;
 
 /// Only reachable through the `#[doc(hidden)]` re-export below: whether rustdoc documents hidden
 /// items decides under which path the type is known.
